@@ -45,14 +45,18 @@ static inline void observe(int fn, int phase, void **args) {
 }
 // The linear LWE operations are called in long streaks (n*t row subtractions per key switch, one copy per key row on
 // import): yield on the first calls of a streak (the gate-level combination) and then on every 128th only.
-static thread_local uint32_t tl_lin_streak = 0;
+static thread_local uint32_t tl_lin_streak = 0, tl_trig_streak = 0;
 static inline void yield_at(int site) {
     g_site_calls[site]++;
     if (tl_in_obs) return;
     if (site == Y_LWE_LIN) {
         uint32_t s = ++tl_lin_streak;
         if (s > 4 && (s & 127)) return;
-    } else tl_lin_streak = 0;
+    } else if (site == Y_TABLEINIT) {
+        // trigonometric tables are filled by thousands of consecutive calls: the first ones and every 64th are scheduling points
+        uint32_t s = ++tl_trig_streak;
+        if (s > 2 && (s & 63)) return;
+    } else { tl_lin_streak = 0; tl_trig_streak = 0; }
     sim_yield(site);
 }
 
@@ -329,6 +333,23 @@ extern "C" time_t time(time_t *t) { static time_t (*real)(time_t *) = (time_t (*
 extern "C" int clock_gettime(clockid_t c, struct timespec *ts) {
     static int (*real)(clockid_t, struct timespec *) = (int (*)(clockid_t, struct timespec *)) dlsym(RTLD_NEXT, "clock_gettime");
     clock_hit("clock_gettime"); return real(c, ts);
+}
+// libm's trigonometric functions as called by the library (through the PLT): FFT twiddle tables are being computed.  The values
+// are libm's own; only the call is a scheduling point for simulated tasks.
+extern "C" double sin(double x) {
+    static double (*real)(double) = (double (*)(double)) dlsym(RTLD_NEXT, "sin");
+    if (sched_self() >= 0) yield_at(Y_TABLEINIT);
+    return real(x);
+}
+extern "C" double cos(double x) {
+    static double (*real)(double) = (double (*)(double)) dlsym(RTLD_NEXT, "cos");
+    if (sched_self() >= 0) yield_at(Y_TABLEINIT);
+    return real(x);
+}
+extern "C" void sincos(double x, double *s_, double *c_) {
+    static void (*real)(double, double *, double *) = (void (*)(double, double *, double *)) dlsym(RTLD_NEXT, "sincos");
+    if (sched_self() >= 0) yield_at(Y_TABLEINIT);
+    real(x, s_, c_);
 }
 extern "C" int gettimeofday(struct timeval *tv, void *tz) {
     static int (*real)(struct timeval *, void *) = (int (*)(struct timeval *, void *)) dlsym(RTLD_NEXT, "gettimeofday");
